@@ -61,6 +61,37 @@ NEEDS = {
  "C19-m1": "two or more make_* directives with --lst and no -o (listing beside the LAST output)",
  "C19-m2": "two distinct negative values, or a value >= 2^18 next to a six-digit value, in one file's section (sorted by text)",
  "C19-m3": "symbol names containing a dot (truncated in the listing)",
+ # ---- round 2 (two further patches per property, made after the round-1 strengthening)
+ "C01b-m1": "an FP-11 instruction whose memory operand is an ordinary symbol that merely begins like an accumulator name (ac1buf, ac0_save, AC3TMP, ac51): taken for the accumulator",
+ "C01b-m2": "the legacy spelling '@Rn' of register deferred (accepted with a warning as (Rn)): assembled as @0(Rn) with an extra word",
+ "C02b-m1": "an '.ascii' concatenation with a quoted chunk that is not the first chunk, kept pending by an <expr> chunk that names a later symbol: announced size forgets the later quoted chunks",
+ "C02b-m2": "link base known during the pass, two pending sizes in front of a label, the first becomes computable and an evaluation attempt of the label fails on the second: the first size is folded twice",
+ "C03b-m1": "two linked files: the earlier exports a name, the later defines the same name privately AFTER a use that is computable at once (the use binds to the other file's value)",
+ "C03b-m2": "definition chain written in reverse order with an additive constant ('a = b + 1' above 'b = c + 2' above 'c = 5') and 'a' first used with a coefficient other than +1 (10 - a, 3*a)",
+ "C04b-m1": "branch/SOB operand that is an expression whose first number is a numeric local label of two or more digits ('br 10+2'): the label is looked up by its value ('8')",
+ "C04b-m2": "branch/SOB operand that is an expression containing exactly one of '(' and ':' with a plain number reached before any symbol ('br 2+1:', 'beq (lbl)+2'): the number becomes a local label",
+ "C05b-m1": "a '^R' literal of one or two characters inside an expression (^RA, ^RAB): padded on the wrong side",
+ "C05b-m2": "'/' with a dividend or quotient beyond about 2^52 (<1 << 62.>/3, 12345678901234567890./1000.): computed through a float",
+ "C06b-m1": "an operand-less '.word' / '.dw' at an odd address: accepted with only the implicit-operand warning",
+ "C06b-m2": "multi-byte output charset (utf-8), a non-ASCII character in an '.ascii'/'.asciz' string, and the directive kept pending by an <expr> chunk naming a later symbol: size announced in characters",
+ "C07b-m1": "a make_bin/make_raw/make_wav/... directive in the source plus a non-critical error that does not abort compilation (undefined symbol, odd address, .error ...): the directive's file is written although the exit status is 1",
+ "C07b-m2": "a -W selection that switches off an identifier an ERROR uses (-Wno-all with '.word #5' = excess-hash, 'ldf r6, ac0' = implicit-accumulator, -Wno-undefined-symbol): exit 1 without any error diagnostic",
+ "C09b-m1": "a label laid out BEFORE a '.link' that stands in the middle of the text, with a block of still unknown size in front of it, read directly after the '.link': the base is counted twice",
+ "C09b-m2": "a constant that names a label and is defined before it ('x = buf' above 'buf:'), base unknown while labels are laid out ('.link' in the middle or at the end), the constant SUBTRACTED from another address as its first use",
+ "C10b-m1": "an implicit word list followed by a ';' comment with no blank in between ('1, 2;note')",
+ "C10b-m2": "the end directive written with an upper-case letter (.END) followed by text that does not parse (banner, Ctrl-Z)",
+ "C11b-m1": "an '.include' (or second linked file) behind an ordinary label of the includer, and a local label used at the top of the included file before its first ordinary label, same local name in the includer's current region",
+ "C11b-m2": "two files exporting the same name, the later one through '.extern all' placed AFTER the definition: duplicate not reported",
+ "C12b-m1": "'. = X' after the base is set whose target is exactly the current location (skip of size 0): refused as a backward move",
+ "C12b-m2": "'.link' expression in which an intermediate symbol defined before its labels has a coefficient other than +1 and evaluates to a polynomial with a non-zero constant and a still unknown size ('.link 40000 - span')",
+ "C13b-m1": "'-o NAME.BIN' (extension not all lower case): written in raw format without the base/length header",
+ "C13b-m2": "make_wav / make_turbo_wav with an explicitly EMPTY tape name: replaced by the name inferred from the output file",
+ "C16b-m1": "a '.once' file that is both named on the command line and '.include'd in one build: contributes twice (or spurious duplicate-symbol)",
+ "C16b-m2": "two insert_file directives in source files of different directories naming their files by the same relative path, the files differing: the second gets the first file's bytes",
+ "C17b-m1": "a value too far below zero for its field (.byte 1, -400; mov #-200000, r0; lazily: low = -1000000 defined later): reported at the start of the statement instead of the operand",
+ "C17b-m2": "two assemblies in one process that give the same file name texts with different line breaks, the later one reporting a position in it: line/column computed from the stale line table",
+ "C19b-m1": "--lst with an output whose stem ends in a letter of its extension (main.bin -> ma.lst, draw.raw -> d.lst)",
+ "C19b-m2": "a program of ten or more compiled source files (linked and included, repeats counted): files 10.. have no section in the listing",
 }
 
 
@@ -71,7 +102,7 @@ def main():
         if not mp.exists():
             continue
         m = json.loads(mp.read_text())
-        m["property"] = d.name.split("-")[0]
+        m["property"] = d.name.split("-")[0][:3]
         m["needs_to_manifest"] = NEEDS.get(d.name, m.get("needs_to_manifest", "see notes.md"))
         m["how_confirmed"] = ("tools/seed_eval.sh: scratch worktree of /repo HEAD, patch applied with git apply, pinned suite run with the hook guard off, "
                               "demo.py run against the clean and the patched tree, then each listed check run with PDPY11_REPO=<patched worktree> --tier quick")
